@@ -66,12 +66,19 @@ def _arm(seconds):
         faulthandler.dump_traceback_later(seconds, exit=True)
 
 
-def run_single(prop, cls, cfg, scen: Choices, sched: Choices):
-    """One simulated run; always restores the null context and real knobs."""
+REPLAY_FORMAT = 2  # 2: replay files carry the decoded scenario and are executed from it
+
+
+def run_single(prop, cls, cfg, scen, sched: Choices, scenario=None):
+    """One simulated run; always restores the null context and real knobs.
+    With `scenario` (a decoded scenario from a replay file) generation is skipped:
+    such files stay valid when the generator's grammar changes."""
     from . import executor, seams
 
     mod = prop_module(prop)
     try:
+        if scenario is not None:
+            return mod.execute(scenario, sched, cls, cfg)
         return mod.run_one(scen, sched, cls, cfg)
     finally:
         executor.set_context(None)
@@ -166,17 +173,18 @@ def _short(x, lim=400):
     return s if len(s) <= lim else s[:lim] + "..."
 
 
-def job_replay(prop, cls, cfg, scen_list, sched_list, want_sample=True):
-    """Re-execute one run from recorded choices."""
+def job_replay(prop, cls, cfg, scen_list, sched_list, want_sample=True, scenario=None):
+    """Re-execute one run from its recorded scenario (or, failing that, choices)."""
     _worker_init()
     _arm(cfg.get("timeout_s", 300))
     scen = Choices(replay=scen_list)
     sched = Choices(replay=sched_list)
     c = dict(cfg)
     c["want_sample"] = want_sample
-    rec = run_single(prop, cls, c, scen, sched)
+    rec = run_single(prop, cls, c, scen, sched, scenario=scenario)
     _arm(0)
     return {
+        "scenario_full": rec.get("scenario"),
         "violations": [{"site": v["site"], "features": v.get("features", {}), "expected": _short(v.get("expected")), "actual": _short(v.get("actual"))} for v in rec["violations"]],
         "events": rec.get("events"),
         "result": rec.get("result"),
@@ -399,7 +407,7 @@ def run_check(prop: str, tier: str, seed: int, runs: int | None = None, workers:
             rp = os.path.join(ROOT, e["replay"])
             with open(rp) as f:
                 rf = json.load(f)
-            fut = pools.submit(0, job_replay, prop, rf["cls"], rf["cfg"], rf["scen"], rf["sched"], False)
+            fut = pools.submit(0, job_replay, prop, rf["cls"], rf["cfg"], rf["scen"], rf["sched"], False, rf.get("scenario_full"))
             try:
                 out = fut.result(timeout=600)
             except (BrokenProcessPool, FutTimeout) as ex:
@@ -499,6 +507,8 @@ def run_check(prop: str, tier: str, seed: int, runs: int | None = None, workers:
                     "cfg": rcfg,
                     "scen": out["scen"],
                     "sched": out["sched"],
+                    "format": REPLAY_FORMAT,
+                    "scenario_full": out.get("scenario_full"),
                     "scenario": out.get("sample"),
                     "violation": viol,
                     "event_log_sha256": out.get("events"),
@@ -646,7 +656,7 @@ def run_replay(path: str):
     prop = rf["property"]
     pools = Pools(1)
     try:
-        out = pools.submit(0, job_replay, prop, rf["cls"], rf["cfg"], rf["scen"], rf["sched"], True).result(timeout=1200)
+        out = pools.submit(0, job_replay, prop, rf["cls"], rf["cfg"], rf["scen"], rf["sched"], True, rf.get("scenario_full")).result(timeout=1200)
     finally:
         pools.close()
     want = site_hash(rf["violation"]["site"])
